@@ -22,7 +22,8 @@ def oracle(case, observed):
     """Property text on the implementation's observations.  Yields (signature, what, turn index)."""
     ver = case["ver"]
     out = []
-    forbidden = {}   # text that was rewritten away -> turn; must never reach a prompt (Colang 1.0)
+    forbidden = {}   # text that was rewritten away -> turn; must never reach a prompt (Colang 1.0) ...
+    legit = set()    # ... unless the same text legitimately belongs to the conversation (texts may repeat)
     for t, (turn, ob) in enumerate(zip(case["turns"], observed)):
         if "error" in ob:
             out.append((f"{ver}-generate-raised", f"turn {t}: generate raised {ob['error']}", t))
@@ -69,16 +70,21 @@ def oracle(case, observed):
             # accepted: in Colang 1.0 later stages see only the final text
             if ver == "v1":
                 seen_texts = [x for _, x in exp] + [final]
+                legit.add(final)
                 for x in seen_texts:
                     if x != final:
                         forbidden.setdefault(x, t)
                 for o in obs:
                     if o[0] == "L" and o[1] != "generate_next_steps" and final not in o[3]:
                         out.append((f"{ver}-rewritten-text-missing-in-prompt", f"turn {t}: prompt of {o[1]} lacks {final}: {o[3]}", t))
+        if reply[0] == "msg" and reply[1]:
+            legit.update(str(reply[1]).split("\n"))
+        if ver == "v1" and case["mode"] == "passthrough":
+            legit.add(turn["user"])      # the caller's message list is sent verbatim in later turns
         if ver == "v1":
             for o in obs:
                 if o[0] == "L":
-                    leaked = [x for x in o[3] if x in forbidden]
+                    leaked = [x for x in o[3] if x in forbidden and x not in legit]
                     if leaked:
                         out.append((f"{ver}-original-text-in-prompt", f"turn {t}: prompt of {o[1]} contains {leaked} (rewritten away at turn {forbidden[leaked[0]]})", t))
     return out
